@@ -141,7 +141,9 @@ class MatrixGate(raw_types.Gate):
             return NotImplemented
         if self._qid_shape[qubit_index] != 2:
             return NotImplemented
-        result = np.copy(self._matrix).reshape(self._qid_shape * 2)
+        # A real or integer matrix has to become complex before it is multiplied by the phase.
+        dtype = np.promote_types(self._matrix.dtype, np.complex64)
+        result = self._matrix.astype(dtype).reshape(self._qid_shape * 2)
 
         p = np.exp(2j * np.pi * phase_turns)
         i = qubit_index
